@@ -235,6 +235,15 @@ class OptimisticRules(WordLockRules):
                 if rg and rg['owning'] and len(rows) == 1:
                     self.acq_version(fn, p, rows[0], rg, 'LockX')
 
+    def role_tryacq(self, fn, mode, paths, res):
+        super().role_tryacq(fn, mode, paths, res)
+        if mode == 'X':
+            for p in paths:
+                rg = self.ret_guard(p)
+                rows, _ = self.rows_of(fn, p)
+                if rg and rg['owning'] and len(rows) == 1:
+                    self.acq_version(fn, p, rows[0], rg, short(fn['name']))
+
     def conv_version(self, fn, p, row, spec, rg):
         if spec == 'UPG':
             self.acq_version(fn, p, row, rg, 'UpgradeToX')
@@ -322,6 +331,11 @@ class OptimisticRules(WordLockRules):
                         if isinstance(e['path'][1], tuple) and e['path'][1][0] == 'addr' and e['path'][1][1][0] == 'var':
                             continue      # a local guard object of the function itself (move-and-swap): gone when the function returns
                         if e['path'][1] != S('this'):
+                            import guards as G
+                            gp_ = G.guard_params(f, xname)
+                            if len(gp_) == 1 and len(f['params']) == 1 and \
+                                    G.exchange_status(p, S('this'), S('&' + gp_[0]['name']), [x['name'] for x in xg['fields']]) == 'full':
+                                continue
                             self.sink.bad('C09.FLOW', '%s writes %s of another guard' % (short(f['name']), tgt), '%s:%s' % (f['file'], line), show(e['path']))
                             continue
                     if tgt is None:
@@ -347,4 +361,10 @@ class OptimisticRules(WordLockRules):
                     elif f['key'] == self.sv_fn['key'] and tgt == self.new_f:
                         self.sink.ok('C09.FLOW', key, loc, 'SetVersion')
                     else:
+                        import guards as G
+                        gp = G.guard_params(f, xname)
+                        if len(gp) == 1 and len(f['params']) == 1 and \
+                                G.exchange_status(p, S('this'), S('&' + gp[0]['name']), [x['name'] for x in xg['fields']]) == 'full':
+                            self.sink.ok('C09.FLOW', key, loc, 'complete exchange with another guard (swap)')
+                            continue
                         self.sink.bad('C09.FLOW', key, loc, 'unexpected writer of the guard\'s version members')
